@@ -370,6 +370,7 @@ func (e *engine) check(blocks [][][]byte) (fs []finding, outcome []string, rec *
 		return n
 	}
 	appliedBefore := map[string]int{} // tx bytes → times applied so far
+	unsignedValid := map[string]bool{}
 	kvModel := map[string]string{}
 	for bi, txs := range blocks {
 		br := rec.Blocks[bi]
@@ -489,8 +490,10 @@ func (e *engine) check(blocks [][][]byte) (fs []finding, outcome []string, rec *
 			pat = append(pat, "V("+ti.class+")")
 			// (4) a valid tx is signed, carries the sender's current nonce, and bumps it by one
 			if !ti.signed {
-				fs = append(fs, finding{sig: map[string]string{"kind": "valid-without-sender", "input": ti.class},
-					detail: fmt.Sprintf("block %d tx %d is reported valid but has no recoverable sender (decodable=%v)", bi+1, i, ti.decodable), block: bi, tx: i})
+				// no sender ⇒ the tx cannot have been executed at all: it was merely REPORTED valid
+				fs = append(fs, finding{sig: map[string]string{"kind": "unsigned-tx-reported-valid", "rule": "report", "input": ti.class},
+					detail: fmt.Sprintf("block %d tx %d is reported valid but has no recoverable sender (decodable=%v): it cannot have been applied; schedule-dependent when the input is a bad signature (the status 'failed' is published before the error is stored)", bi+1, i, ti.decodable), block: bi, tx: i})
+				unsignedValid[fmt.Sprint(bi, ":", i)] = true
 				continue
 			}
 			cur := nonceOf(ti.from)
@@ -536,7 +539,7 @@ func (e *engine) check(blocks [][][]byte) (fs []finding, outcome []string, rec *
 			}
 		}
 		for i, t := range txs {
-			if !vd[bi][i] {
+			if !vd[bi][i] || unsignedValid[fmt.Sprint(bi, ":", i)] {
 				continue
 			}
 			ti := e.info(t)
